@@ -369,6 +369,24 @@ func (it *Interp) exec(s ast.Stmt, env *Env) ctrl {
 		if it.defers == nil {
 			it.fail(s, "defer outside a function the interpreter entered")
 		}
+		if id, ok := ast.Unparen(x.Call.Fun).(*ast.Ident); ok {
+			if b, ok := it.info.Uses[id].(*types.Builtin); ok {
+				// defer delete(m, k): the operands are evaluated now, the deletion happens at the exit
+				if b.Name() == "delete" && len(x.Call.Args) == 2 {
+					mv, _ := it.eval(x.Call.Args[0], env).(*MapV)
+					key := it.keyOf(x.Call.Args[1], it.eval(x.Call.Args[1], env))
+					fn := &Native{"deferred delete", func(it *Interp, _ []Value) []Value {
+						if mv != nil {
+							delete(mv.m, key)
+						}
+						return nil
+					}}
+					*it.defers = append(*it.defers, deferred{fn, nil, x})
+					break
+				}
+				it.fail(s, "deferred call of builtin %s not modelled", b.Name())
+			}
+		}
 		fn := it.eval(x.Call.Fun, env)
 		var args []Value
 		for _, a := range x.Call.Args {
